@@ -34,6 +34,20 @@ type C18Method struct {
 // filled by the generated file zz_verif_c18_gen.go
 var c18Methods []C18Method
 
+// C18Reg is one registration of the node's API list: namespace, real receiver
+// type (by name), all its exported method names and a generated receiver type
+// carrying exactly those method names.
+type C18Reg struct {
+	NS    string
+	Recv  string
+	Names []string
+	Dummy interface{}
+}
+
+// c18Order: the registrations in the order node start-up performs them
+// (generated: walk of Node.startRPC and the []rpc.API functions it calls).
+var c18Order []C18Reg
+
 // transports
 const (
 	C18InProc = iota
@@ -151,9 +165,10 @@ func VerifC18GateRegistered(tr int, f C18Flags, preexisting bool, ns string, rcv
 }
 
 // VerifC18_Gate: for every exported method name of every registered service
-// type, every calling start function and every combination of the five flags:
-// a method that may sign (statically reaches a signing entry point and is not
-// refuted/decided by VerifC18_Reach) is offered only if that transport's flag is set.
+// type, every calling start function, fresh namespace or namespace that already
+// has a service (merge branch) and every combination of the five flags: a
+// method that may sign is offered - in the server's final service map - only if
+// that transport's flag is set.
 func VerifC18_Gate() {
 	vs.Assert(len(c18Methods) > 0, "generated method table present")
 	m := c18Methods[vs.Choice("method", len(c18Methods))]
@@ -173,17 +188,66 @@ func VerifC18_Gate() {
 	} else {
 		vs.Reach("removed")
 	}
-	if m.MaySign && !m.Decided {
+	// Every MaySign method counts as signing-capable here: the ones whose body is
+	// executed (Decided) are confirmed signers - VerifC18_Reach faults unless each
+	// of them exhibits a signing path (reach_pairs) - the others are undetermined.
+	if m.MaySign {
 		vs.Reach("treated-as-signing")
 		// Known finding (exactly these three methods): StartMining on a clique
 		// chain authorises the keystore's CliqueSigner and the miner then seals
 		// blocks through KeyStore.SignHashAllowed.  The engine cannot execute
 		// these bodies (miner goroutines), so they are not refuted; any other
 		// undetermined method stays an ordinary violation.
-		vs.Known("C18-mining-clique-seal",
-			(m.Recv == "aqua.PrivateMinerAPI" && m.Name == "Start") ||
-				(m.Recv == "aqua.PublicMinerAPI" && m.Name == "GetWork") ||
-				(m.Recv == "aqua.PublicTestingAPI" && m.Name == "GetBlockTemplate"))
+		vs.Known("C18-mining-clique-seal", c18KnownMining(m.Recv, m.Name))
 		vs.Assert(!offered || C18OptedIn(tr, f), "treated as signing-capable and offered on a transport that is not opted in: "+m.NS+" "+m.Recv+"."+m.Name)
 	}
+}
+
+func c18KnownMining(recv, name string) bool {
+	return (recv == "aqua.PrivateMinerAPI" && name == "Start") ||
+		(recv == "aqua.PublicMinerAPI" && name == "GetWork") ||
+		(recv == "aqua.PublicTestingAPI" && name == "GetBlockTemplate")
+}
+
+// VerifC18_NodeOrder: the whole API list is registered on one server in the
+// node's real order (c18Order) from one start function; afterwards the final
+// callback set of the method's namespace, read from the server's service map,
+// must not offer a signing-capable method unless that transport is opted in.
+func VerifC18_NodeOrder() {
+	vs.Assert(len(c18Methods) > 0 && len(c18Order) > 0, "generated tables present")
+	m := c18Methods[vs.Choice("method", len(c18Methods))]
+	if !m.MaySign {
+		return
+	}
+	tr := vs.Choice("transport", C18NTransports)
+	var f C18Flags
+	f[C18InProc] = vs.Bool("allow_sign_inProc")
+	f[C18IPC] = vs.Bool("allow_sign_ipc")
+	f[C18HTTP] = vs.Bool("allow_sign_http")
+	f[C18WS] = vs.Bool("allow_sign_ws")
+	f[4] = vs.Bool("allow_all_rpc_signing")
+	c18SetFlags(f)
+	s := &Server{services: make(serviceRegistry)}
+	seen := false
+	for _, r := range c18Order {
+		c18CurNames = r.Names
+		c18RegisterFrom(tr, s, r.NS, r.Dummy) // an error (nothing suitable left) registers nothing
+		if r.NS == m.NS && r.Recv == m.Recv {
+			seen = true
+		}
+	}
+	vs.Assert(seen, "the method's service is part of the registration sequence")
+	offered := false
+	if svc, ok := s.services[m.NS]; ok {
+		_, offered = svc.callbacks[formatName(m.Name)]
+	}
+	vs.Observe("method", m.NS+" "+m.Recv+"."+m.Name)
+	vs.Observe("offered", offered)
+	if offered {
+		vs.Reach("offered")
+	} else {
+		vs.Reach("removed")
+	}
+	vs.Known("C18-mining-clique-seal", c18KnownMining(m.Recv, m.Name))
+	vs.Assert(!offered || C18OptedIn(tr, f), "signing-capable method offered after registering the node's API list in order, transport not opted in: "+m.NS+" "+m.Recv+"."+m.Name)
 }
